@@ -1956,32 +1956,32 @@ def Box4.extendByBox {α : Type} [LT α] [DecidableLT α] (b : Box4 α) (o : Box
                   ⟨⟨b.min.x, b.min.y, b.min.z, b.min.w⟩, ⟨b.max.x, b.max.y, b.max.z, b.max.w⟩⟩
 
 /-- extracted from the C++ template at T = Sym; 9 path(s) -/
-def Box4.intersectsPoint {α : Type} [LT α] [DecidableLT α] (b : Box4 α) (p : V4 α) : Bool :=
-  if p.x < b.min.x then
-    false
-  else
-    if b.max.x < p.x then
-      false
-    else
-      if p.y < b.min.y then
-        false
-      else
-        if b.max.y < p.y then
-          false
-        else
-          if p.z < b.min.z then
-            false
-          else
-            if b.max.z < p.z then
-              false
-            else
-              if p.w < b.min.w then
-                false
-              else
-                if b.max.w < p.w then
-                  false
-                else
+def Box4.intersectsPoint {α : Type} [LE α] [DecidableLE α] (b : Box4 α) (p : V4 α) : Bool :=
+  if b.min.x ≤ p.x then
+    if p.x ≤ b.max.x then
+      if b.min.y ≤ p.y then
+        if p.y ≤ b.max.y then
+          if b.min.z ≤ p.z then
+            if p.z ≤ b.max.z then
+              if b.min.w ≤ p.w then
+                if p.w ≤ b.max.w then
                   true
+                else
+                  false
+              else
+                false
+            else
+              false
+          else
+            false
+        else
+          false
+      else
+        false
+    else
+      false
+  else
+    false
 
 /-- extracted from the C++ template at T = Sym; 17 path(s) -/
 def Box4.intersectsBox {α : Type} [LT α] [DecidableLT α] (b : Box4 α) (o : Box4 α) : Bool :=
